@@ -1,4 +1,4 @@
-"""C05 -- moving definitions and modules keeps importers working (structural clauses R05.1-R05.15)."""
+"""C05 -- moving definitions and modules keeps importers working (structural clauses R05.1-R05.16)."""
 from __future__ import annotations
 
 import ast
@@ -646,3 +646,26 @@ def _shared(ctx, res) -> None:
                             "nested more than one package deep the name still contains a dot and the client gets `from a import b.c` (SyntaxError)",
                             function=f.qualname)
     res.floor("R05.13", "from-import names obtained by splitting a dotted name", n13, 1)
+
+    # R05.16: an import statement rebuilt while walking the (name, alias) pairs of an existing one keeps each alias: the
+    # client's code refers to the alias, not to the name
+    n16 = 0
+    for f in sorted((f for f in idx.functions.values() if f.unit.modname in MODULES or f.unit.modname.startswith("rope.refactor.importutils")),
+                    key=lambda f: f.qualname):
+        for lp in [x for x in walk_local(f.node) if isinstance(x, ast.For) and isinstance(x.target, ast.Tuple) and len(x.target.elts) == 2
+                   and all(isinstance(e, ast.Name) for e in x.target.elts)]:
+            nvar, avar = lp.target.elts[0].id, lp.target.elts[1].id
+            if "alias" not in avar:
+                continue
+            for c in [y for s_ in lp.body for y in [s_, *walk_local(s_)] if isinstance(y, ast.Call) and call_name(y) in ("FromImport", "NormalImport")]:
+                for lst in [a for a in c.args if isinstance(a, ast.List)]:
+                    for e in lst.elts:
+                        if isinstance(e, ast.Tuple) and len(e.elts) == 2:
+                            n16 += 1
+                            ok = isinstance(e.elts[1], ast.Name) and e.elts[1].id == avar
+                            res.add("R05.16", f"{_short(f)}|alias-kept#{n16}", ok, f"{f.unit.rel}:{e.lineno}",
+                                    "the rebuilt import keeps the alias of the pair it replaces" if ok else
+                                    f"{_short(f)} rebuilds an import for `{ast.unparse(e.elts[0])}` with alias `{ast.unparse(e.elts[1])}` instead of the alias of the pair it "
+                                    "is walking: `from pkg import mod as m` becomes `from pkg2 import mod` while the client still calls `m.f()` (NameError)",
+                                    function=f.qualname)
+    res.floor("R05.16", "imports rebuilt pair by pair", n16, 1)
